@@ -259,7 +259,21 @@ impl<'a> FullLoader<'a> {
       if resp.k != "mod" {
         return self.inner.respond(specifier);
       }
-      let b = self.reg.served_bytes(id, pv.tamper.get(path).map(|s| s.as_str()));
+      let t = pv.tamper.get(path).map(|s| s.as_str());
+      // faults of the content load proper (the manifest and its embedded module information stay intact)
+      if !only {
+        match t {
+          Some("content-missing") => return Ok(None),
+          Some("content-err") => return fail(),
+          Some("content-external") => return Ok(Some(LoadResponse::External { specifier: specifier.clone() })),
+          Some("content-redirect") => {
+            let other = pv.files.values().find(|x| *x != id).unwrap_or(id);
+            return Ok(Some(LoadResponse::Redirect { specifier: self.world.spec_of(other) }));
+          }
+          _ => {}
+        }
+      }
+      let b = self.reg.served_bytes(id, t);
       self.check(options, &b)?;
       module(b)
     } else {
@@ -396,6 +410,16 @@ pub fn version_resolver(world: &World) -> JsrVersionResolver {
 /// Build with every observation point instrumented. `drive` lets the caller poll the build
 /// future itself (schedules); `None` = run to completion.
 pub fn build_full(world: &World, kind: GraphKind, roots: &[String]) -> FullBuild {
+  build_full_sched(world, kind, roots, None).expect("immediate schedule cannot fail").0
+}
+
+/// `pick`: None = loads complete immediately; Some(f) = loads are gated and released by `f`.
+pub fn build_full_sched(
+  world: &World,
+  kind: GraphKind,
+  roots: &[String],
+  pick: Option<&mut dyn FnMut(usize) -> usize>,
+) -> Result<(FullBuild, Vec<usize>), String> {
   let events: Events = Default::default();
   let loader = FullLoader::new(world, events.clone());
   let mut locker = LogLocker::new(world, events.clone());
@@ -417,6 +441,7 @@ pub fn build_full(world: &World, kind: GraphKind, roots: &[String]) -> FullBuild
   let roots: Vec<ModuleSpecifier> = roots.iter().map(|r| ModuleSpecifier::parse(&world.url_of(r)).unwrap()).collect();
   let exec = InlineExecutor;
   let resolver = version_resolver(world);
+  let mut picks = vec![];
   {
     let opts = BuildOptions {
       executor: &exec,
@@ -427,7 +452,17 @@ pub fn build_full(world: &World, kind: GraphKind, roots: &[String]) -> FullBuild
       passthrough_jsr_specifiers: world.opts.passthrough_jsr,
       ..Default::default()
     };
-    futures::executor::block_on(graph.build(roots, vec![], &loader, opts));
+    match pick {
+      None => {
+        futures::executor::block_on(graph.build(roots, vec![], &loader, opts));
+      }
+      Some(pick) => {
+        let gated = crate::sched::GatedLoader::new(&loader);
+        let fut = Box::pin(graph.build(roots, vec![], &gated, opts));
+        let (_, p) = crate::sched::drive(fut, &gated, pick, 100_000)?;
+        picks = p;
+      }
+    }
   }
   let resolved: Vec<Value> = reporter.events.lock().unwrap().iter().cloned().collect();
   let lock_remote = locker.remote.clone();
@@ -435,7 +470,20 @@ pub fn build_full(world: &World, kind: GraphKind, roots: &[String]) -> FullBuild
   drop(loader);
   drop(locker);
   let events = Rc::try_unwrap(events).map(|c| c.into_inner()).unwrap_or_default();
-  FullBuild { graph, events, resolved, lock_remote, lock_pkgs }
+  Ok((FullBuild { graph, events, resolved, lock_remote, lock_pkgs }, picks))
+}
+
+/// The observation C04 compares: serialised graph, every error with its range, redirects,
+/// package table, lockfile contents.
+pub fn observation(world: &World, fb: &FullBuild) -> Value {
+  let errors: Vec<String> = fb.graph.module_errors().map(|e| e.to_string_with_range()).collect();
+  let mut lr: Vec<(&String, &String)> = fb.lock_remote.iter().collect();
+  lr.sort();
+  let mut lp: Vec<(&String, &String)> = fb.lock_pkgs.iter().collect();
+  lp.sort();
+  let _ = world;
+  json!({"graph": serde_json::to_value(&fb.graph).unwrap_or(Value::Null), "errors": errors, "pkgs": packages_json(&fb.graph),
+         "lockRemote": lr, "lockPkgs": lp})
 }
 
 /// Projection of the package table.
@@ -688,7 +736,16 @@ pub fn gen_world(rng: &mut StdRng, faults: bool) -> World {
       pv.meta_cached = rng.gen_bool(0.4);
       if faults {
         for p in pv.files.keys().cloned().collect::<Vec<_>>() {
-          match rng.gen_range(0..14) { 0 => { pv.tamper.insert(p, "bytes".into()); } 1 => { pv.tamper.insert(p, "nomanifest".into()); } 2 => { pv.tamper.insert(p, "badsum".into()); } _ => {} }
+          match rng.gen_range(0..18) {
+            0 => { pv.tamper.insert(p, "bytes".into()); }
+            1 => { pv.tamper.insert(p, "nomanifest".into()); }
+            2 => { pv.tamper.insert(p, "badsum".into()); }
+            3 => { pv.tamper.insert(p, "content-missing".into()); }
+            4 => { pv.tamper.insert(p, "content-err".into()); }
+            5 => { pv.tamper.insert(p, "content-redirect".into()); }
+            6 => { pv.tamper.insert(p, "content-external".into()); }
+            _ => {}
+          }
         }
         match rng.gen_range(0..20) { 0 => pv.meta = "missing".into(), 1 => pv.meta = "err".into(), 2 => pv.meta = "garbage".into(), _ => {} }
         if rng.gen_bool(0.1) {
